@@ -182,7 +182,7 @@ def attempt(case):
         for c in spec.get("electric_objects", []):
             plant.by_name[c["name"]] = plants.build_electric_component(c)
         plant.electric = ElectricPowerSystem("p", ecomps, [(SwbId(a), SwbId(b)) for a, b in spec.get("bus_ties", [])]) if ecomps else None
-        mcomps = []
+        mcomps, copies = [], []
         for c in spec.get("mechanical", []):
             if c["kind"] == "pti_pto_ref":
                 obj = plant.by_name[c["name"]]
@@ -192,6 +192,7 @@ def attempt(case):
                     if mut["how"] == "copy":
                         ref = next(e for e in spec["electric"] if e["name"] == c["name"])
                         obj = plants.build_electric_component(ref)
+                        copies.append((c["name"], obj))
             else:
                 obj = plants.build_mechanical_component(c)
             plant.by_name.setdefault(c["name"], obj)
@@ -201,7 +202,15 @@ def attempt(case):
         plant.system = {"electric": plant.electric, "mechanical": plant.mechanical}.get(t)
         if t == "hybrid":
             plant.system = HybridPropulsionSystem("h", plant.electric, plant.mechanical)
-        R.run_plant(case, plant=plant)
+        def twin_inputs(pl):
+            # a second instance of a PTI/PTO built from the same data gets the inputs a user would give it: the same ones
+            for name, twin in copies:
+                orig = pl.by_name[name]
+                twin.status = np.array(orig.status, copy=True)
+                twin.full_pti_mode = np.array(orig.full_pti_mode, copy=True)
+                twin.load_sharing_mode = np.array(orig.load_sharing_mode, copy=True)
+                twin.set_power_input_from_output(np.array(orig.power_output, dtype=float))
+        R.run_plant(case, plant=plant, before_balance=twin_inputs)
         res = R.system_results(plant, case, FuelSpecifiedBy.IMO)
         finite = all(np.isfinite(R.observe_result(r)["ext"]).all() and all(np.isfinite(e[3]) for e in R.observe_result(r)["fuel"]) for r in res.values())
         return "accepted", bool(finite)
